@@ -38,7 +38,9 @@ def ownership(t4, P, label_of=None):
     for v in t4.nonvirtual():
         m = E.inside(v)
         cnt += m
-        lab[m] = label_of(v) if label_of else v
+        L = label_of(v) if label_of else v
+        for i in np.flatnonzero(m):
+            lab[i] = L
     return cnt, lab, E
 
 
